@@ -127,3 +127,17 @@ Definition check_fT4 (c : fT4_case) : bool :=
   | Some f => forallb (check_point f) pts
   | None => false
   end.
+
+(* (g) eval_quadric called directly (since the repair of sq_to_gq no converted
+   card reaches it) *)
+Definition evalq_case : Type := (list float * list float * float)%type.
+Definition check_evalq (c : evalq_case) : bool :=
+  let '(q, pt, expected) := c in
+  match pt with
+  | [x; y; z] =>
+      match eval_quadric FS q (x, y, z) with
+      | Ok v => f_close9 v expected
+      | Err _ => false
+      end
+  | _ => false
+  end.
